@@ -9,7 +9,7 @@ import JubakoModel.Model.Search
 import JubakoModel.Lemmas.Search
 import JubakoModel.Lemmas.Order
 import JubakoModel.Lemmas.DirFile
-import JubakoModel.Lemmas.Funcs
+import JubakoModel.Lemmas.FuncsSearch
 
 namespace Jubako
 
